@@ -7,40 +7,39 @@ namespace RaftWal.Fault.A
 open RaftWal.Crash
 
 /-- the background rotation: its errors are logged; a failing Create stops the process -/
-def rotPhase (d3 : Disk) (k3 : Option Nat) (wf : WriteFail) : Proc :=
-  match runActs d3 wf (rotateActs (vdisk d3)) k3 with
+def rotPhase (d3 : Disk) (k3 : Plan) : Proc :=
+  match runActs d3 (rotateActs (vdisk d3)) k3 with
   | (d4, some a, _) => if isCreate a then { disk := d4, frozen := some d3.md.segs } else { disk := d4 }
   | (d4, none, _) => { disk := d4 }
 
 /-- append, deferred deletion, rotation -/
-def appendPhase (d1 : Disk) (tid : Nat) (es : List Entry) (seals : Bool) (del : List Act) (k1 : Option Nat)
-    (wf : WriteFail) : Proc × Bool :=
-  match runActs d1 wf [.write tid es seals, .fsync tid] k1 with
+def appendPhase (d1 : Disk) (tid : Nat) (es : List Entry) (seals : Bool) (del : List Act) (k1 : Plan) : Proc × Bool :=
+  match runActs d1 [.write tid es seals, .fsync tid] k1 with
   | (d2, f2, k2) =>
-    match runActs d2 wf del k2 with
+    match runActs d2 del k2 with
     | (d3, _, k3) =>
       if f2.isSome then ({ disk := d3 }, false)
-      else if seals then (rotPhase d3 k3 wf, true)
+      else if seals then (rotPhase d3 k3, true)
       else ({ disk := d3 }, true)
 
 /-- what follows the base-index reset -/
-def afterReset (p : Proc) (es : List Entry) (seals : Bool) (del : List Act) (wf : WriteFail)
-    (r : Disk × Option Act × Option Nat) : Proc × Bool :=
+def afterReset (p : Proc) (es : List Entry) (seals : Bool) (del : List Act)
+    (r : Disk × Option Act × Plan) : Proc × Bool :=
   match r with
   | (d1, some a, _) => if isCreate a then ({ disk := d1, frozen := some p.disk.md.segs }, false) else ({ disk := d1 }, false)
   | (d1, none, k1) =>
     match (vdisk d1).md.segs.getLast? with
     | none => ({ disk := d1 }, false)
-    | some t => if tailSealedMem (vdisk d1) then ({ disk := d1 }, false) else appendPhase d1 t.id es seals del k1 wf
+    | some t => if tailSealedMem (vdisk d1) then ({ disk := d1 }, false) else appendPhase d1 t.id es seals del k1
 
 theorem runOp_store_eq (p : Proc) (hfz : p.frozen = none) (first : Nat) (es : List Entry) (seals : Bool)
-    (k : Option Nat) (wf : WriteFail) :
-    runOp p (.store first es seals) k wf =
-      afterReset p es seals (resetActs (vdisk p.disk) first).2 wf
-        (runActs p.disk wf (resetActs (vdisk p.disk) first).1 k) := by
+    (pl : Plan) :
+    runOp p (.store first es seals) pl =
+      afterReset p es seals (resetActs (vdisk p.disk) first).2
+        (runActs p.disk (resetActs (vdisk p.disk) first).1 pl) := by
   unfold runOp
   simp only [hfz, Option.isSome_none, Bool.false_eq_true, ↓reduceIte]
-  generalize runActs p.disk wf (resetActs (vdisk p.disk) first).1 k = r1
+  generalize runActs p.disk (resetActs (vdisk p.disk) first).1 pl = r1
   obtain ⟨d1, f1, k1⟩ := r1
   cases f1 with
   | some a => rfl
@@ -53,17 +52,17 @@ theorem runOp_store_eq (p : Proc) (hfz : p.frozen = none) (first : Nat) (es : Li
       split
       · rfl
       · unfold appendPhase
-        generalize runActs d1 wf [Act.write t.id es seals, Act.fsync t.id] k1 = r2
+        generalize runActs d1 [Act.write t.id es seals, Act.fsync t.id] k1 = r2
         obtain ⟨d2, f2, k2⟩ := r2
         simp only
-        generalize runActs d2 wf (resetActs (vdisk p.disk) first).2 k2 = r3
+        generalize runActs d2 (resetActs (vdisk p.disk) first).2 k2 = r3
         obtain ⟨d3, f3, k3⟩ := r3
         simp only
         split
         · rfl
         · split
           · unfold rotPhase
-            generalize runActs d3 wf (rotateActs (vdisk d3)) k3 = r4
+            generalize runActs d3 (rotateActs (vdisk d3)) k3 = r4
             obtain ⟨d4, f4, k4⟩ := r4
             cases f4 with
             | none => rfl
@@ -74,31 +73,33 @@ theorem runOp_store_eq (p : Proc) (hfz : p.frozen = none) (first : Nat) (es : Li
 
 /-! ### `runActs` on the two pairs of actions of StoreLogs -/
 
-theorem runActs_commit_create (d : Disk) (wf : WriteFail) (m : Meta) (i b : Nat) (k : Option Nat) :
-    runActs d wf [.commit m, .create i b] k =
-      match k with
-      | none => ((d.apply (.commit m)).apply (.create i b), none, none)
-      | some 0 => (d, some (.commit m), none)
-      | some 1 => (d.apply (.commit m), some (.create i b), none)
-      | some (n + 2) => ((d.apply (.commit m)).apply (.create i b), none, some n) := by
-  match k with
-  | none => rw [runActs_none_cons, runActs_none_cons, runActs_nil]; rfl
-  | some 0 => rw [runActs_zero_commit]
-  | some 1 => rw [runActs_succ_cons, runActs_zero_create]; rfl
-  | some (n + 2) => rw [runActs_succ_cons, runActs_succ_cons, runActs_nil]; rfl
+/-- commit then create under any plan: the commit fails, or the create fails, or both go through -/
+theorem runActs_commit_create (d : Disk) (m : Meta) (i b : Nat) (pl : Plan) :
+    (∃ rest, runActs d [.commit m, .create i b] pl = (d, some (.commit m), rest)) ∨
+    (∃ rest, runActs d [.commit m, .create i b] pl = (d.apply (.commit m), some (.create i b), rest)) ∨
+    (∃ rest, runActs d [.commit m, .create i b] pl = ((d.apply (.commit m)).apply (.create i b), none, rest)) := by
+  match pl with
+  | [] => exact Or.inr (Or.inr ⟨[], by rw [runActs_cons_nil, runActs_cons_nil, runActs_nil]; rfl⟩)
+  | some wf :: pl => exact Or.inl ⟨pl, runActs_fail_commit d wf m _ pl⟩
+  | [none] => exact Or.inr (Or.inr ⟨[], by rw [runActs_cons_none, runActs_cons_nil, runActs_nil]; rfl⟩)
+  | none :: some wf :: pl => exact Or.inr (Or.inl ⟨pl, by rw [runActs_cons_none, runActs_fail_create]; rfl⟩)
+  | none :: none :: pl =>
+    exact Or.inr (Or.inr ⟨pl, by rw [runActs_cons_none, runActs_cons_none, runActs_nil]; rfl⟩)
 
-theorem runActs_write_fsync (d : Disk) (wf : WriteFail) (id : Nat) (es : List Entry) (sl : Bool) (k : Option Nat) :
-    runActs d wf [.write id es sl, .fsync id] k =
-      match k with
-      | none => ((updT d id (setPend es sl)).apply (.fsync id), none, none)
-      | some 0 => (failEffect d wf (.write id es sl), some (.write id es sl), none)
-      | some 1 => (updT d id (setPend es sl), some (.fsync id), none)
-      | some (n + 2) => ((updT d id (setPend es sl)).apply (.fsync id), none, some n) := by
-  match k with
-  | none => rw [runActs_none_cons, runActs_none_cons, runActs_nil]; rfl
-  | some 0 => rw [runActs_zero_write]
-  | some 1 => rw [runActs_succ_cons, runActs_zero_fsync]; rfl
-  | some (n + 2) => rw [runActs_succ_cons, runActs_succ_cons, runActs_nil]; rfl
+/-- write then fsync under any plan: the write fails, or the fsync fails, or both go through -/
+theorem runActs_write_fsync (d : Disk) (id : Nat) (es : List Entry) (sl : Bool) (pl : Plan) :
+    (∃ wf rest, runActs d [.write id es sl, .fsync id] pl =
+      (failEffect d wf (.write id es sl), some (.write id es sl), rest)) ∨
+    (∃ rest, runActs d [.write id es sl, .fsync id] pl = (updT d id (setPend es sl), some (.fsync id), rest)) ∨
+    (∃ rest, runActs d [.write id es sl, .fsync id] pl =
+      ((updT d id (setPend es sl)).apply (.fsync id), none, rest)) := by
+  match pl with
+  | [] => exact Or.inr (Or.inr ⟨[], by rw [runActs_cons_nil, runActs_cons_nil, runActs_nil]; rfl⟩)
+  | some wf :: pl => exact Or.inl ⟨wf, pl, runActs_fail_write d wf id es sl _ pl⟩
+  | [none] => exact Or.inr (Or.inr ⟨[], by rw [runActs_cons_none, runActs_cons_nil, runActs_nil]; rfl⟩)
+  | none :: some wf :: pl => exact Or.inr (Or.inl ⟨pl, by rw [runActs_cons_none, runActs_fail_fsync]; rfl⟩)
+  | none :: none :: pl =>
+    exact Or.inr (Or.inr ⟨pl, by rw [runActs_cons_none, runActs_cons_none, runActs_nil]; rfl⟩)
 
 /-! ### the rotation phase -/
 
@@ -110,8 +111,8 @@ theorem FRun.good {d : Disk} {P : List Seg} {t : Seg} {f : File} (h : FRun d P t
   ⟨h.finv, rfl, h.log_eq_view hp, fextraRun_of h hx⟩
 
 theorem rotPhase_spec {d3 : Disk} {P : List Seg} {t : Seg} {f : File} (h : FRun d3 P t f) (hss : f.sealedS = true)
-    (hne : f.synced ≠ []) (hlk : f.linked = true) (k3 : Option Nat) (wf : WriteFail) :
-    Good (rotPhase d3 k3 wf) (absLog (vdisk d3)) := by
+    (hne : f.synced ≠ []) (hlk : f.linked = true) (k3 : Plan) :
+    Good (rotPhase d3 k3) (absLog (vdisk d3)) := by
   obtain ⟨hp, hsp⟩ := h.ft.ss hss
   have hrec := h.toRec hne hlk hp hsp
   obtain ⟨h3, h4, _, _, _⟩ := rotate_create hrec h.tf hss
@@ -128,12 +129,13 @@ theorem rotPhase_spec {d3 : Disk} {P : List Seg} {t : Seg} {f : File} (h : FRun 
       fextraRun_of hr (XT_of_noseal rfl rfl)⟩
   unfold rotPhase
   rw [rotateActs_vdisk h hp, show rotCommit d3 P t f.lastIdx = Act.commit
-    ⟨d3.md.nextID + 1, P ++ [sealSeg t f.lastIdx] ++ [newSeg d3.md.nextID (f.lastIdx + 1)], d3.md.stable⟩ from rfl,
-    runActs_commit_create]
-  match k3 with
-  | none => exact hfull
-  | some 0 => exact h.good hp (XT_of_synced hne)
-  | some 1 =>
+    ⟨d3.md.nextID + 1, P ++ [sealSeg t f.lastIdx] ++ [newSeg d3.md.nextID (f.lastIdx + 1)], d3.md.stable⟩ from rfl]
+  rcases runActs_commit_create d3 ⟨d3.md.nextID + 1, P ++ [sealSeg t f.lastIdx] ++
+      [newSeg d3.md.nextID (f.lastIdx + 1)], d3.md.stable⟩ d3.md.nextID (f.lastIdx + 1) k3 with
+    ⟨rest, hr⟩ | ⟨rest, hr⟩ | ⟨rest, hr⟩
+  · rw [hr]
+    exact h.good hp (XT_of_synced hne)
+  · rw [hr]
     simp only [isCreate, ↓reduceIte]
     refine ⟨?_, ?_, ?_, fextraStop_of_base h3.base rfl _⟩
     · exact finvStop_of (nt := newSeg d3.md.nextID (f.lastIdx + 1)) h.finv rfl rfl (by simp) rfl rfl h.base.fidlt
@@ -147,6 +149,7 @@ theorem rotPhase_spec {d3 : Disk} {P : List Seg} {t : Seg} {f : File} (h : FRun 
       show logP _ (P ++ [sealSeg t f.lastIdx] ++ [newSeg d3.md.nextID (f.lastIdx + 1)]) = _
       rw [logP_append, logP_single, hs, List.append_nil]
       exact ht
-  | some (n + 2) => exact hfull
+  · rw [hr]
+    exact hfull
 
 end RaftWal.Fault.A
